@@ -145,6 +145,14 @@ fn plan(p: &mut Plan<'_>) {
             p.part(netsim::NetSim { mode: netsim::Mode::C02 }, 1500, 200_000, "full client/server runs over SimNet with a seeded fault tape (bounded = survivable, liveness judged; unbounded = safety + bounded failure); non-trivial = a fault fired and the handshake or some stream made progress; distinct = hash of the wire trace and application event trace");
             p.assumptions = vec!["TLS key material is not seeded (Ed25519 chain keeps message sizes fixed)", "single-threaded seeded executor: task order is permuted, polls never run truly concurrently"];
         }
+        "C06" => {
+            p.part(netsim::NetSim { mode: netsim::Mode::C06 }, 120, 20_000, "whole-stack runs with a capturing qlog on both endpoints and 1..3 FlipSweep faults: for a drawn in-flight datagram the network delivers every single-bit corruption, every truncation, the original and a replay; packet logs of both vantage points are compared; non-trivial = a sweep fired and packets round-tripped; distinct = wire+app trace hash");
+            p.assumptions = vec!["only the system-level clauses are claimed (DESIGN §5 C06): the stack never initiates key updates and always uses 8-byte connection ids", "frame equality is judged on kind and the fields both vantage points log"];
+        }
+        "C15" => {
+            p.part(netsim::NetSim { mode: netsim::Mode::C15 }, 1500, 150_000, "whole-stack runs biased to the unvalidated phase: RSA chain (first server flight > 3x1200 bytes), client second-flight loss/truncation/duplication so the server retransmits while unvalidated; the network's per-address byte ledger is checked after every server send until the server first processes a Handshake packet; non-trivial = a fault fired and handshake progressed; distinct = trace hash");
+            p.assumptions = vec!["bytes delivered to the server's socket from the client address are an upper bound of what the server may count as received", "validation instant = the server's first packet_received qlog event of type handshake"];
+        }
         other => die(&format!("no check for property {other}")),
     }
 }
